@@ -193,3 +193,22 @@ func CMACSubkeyMSBs(key []byte) (bool, bool) {
 	k1 := dbl(l)
 	return l[0]&0x80 != 0, k1[0]&0x80 != 0
 }
+
+// LongLengths returns length classes beyond the dense range: a window of +-w around every power of two from
+// 2^10 to 2^maxPow, plus a few lengths that are not close to any power of two. Batched / chunked processing
+// bugs select such classes (e.g. "wrong for inputs of 2049 bytes or more"), so every check whose subject loops
+// over blocks adds these to its dense 0..N sweep.
+func LongLengths(maxPow, w int) []int {
+	var out []int
+	for p := 10; p <= maxPow; p++ {
+		for d := -w; d <= w; d++ {
+			out = append(out, (1<<p)+d)
+		}
+	}
+	for _, n := range []int{1500, 3000, 5000, 10007, 33333, 70001} {
+		if n < 1<<(maxPow+1) {
+			out = append(out, n)
+		}
+	}
+	return out
+}
